@@ -57,6 +57,38 @@ func TestC14Regressions(t *testing.T) {
 		}
 	})
 
+	// 35e0fed: a protocol fault after the last content byte of a
+	// compressed upload (here: inside a trailing skippable frame) must not
+	// be taken for the end of the stream.
+	run("zstd_write_fault_after_content", func(t *testing.T) {
+		x := append(zEncodeStream(0, nil, 1), 0x50, 0x2a, 0x4d, 0x18, 1, 0, 0, 0, 0xaa)
+		type variant struct {
+			what string
+			msgs []wmsg
+			end  error
+		}
+		first := wmsg{name: emptyName, off: 0, data: x[:len(x)-1]}
+		for _, v := range []variant{
+			{"second message at write_offset+1", []wmsg{first, {off: int64(len(x)), data: x[len(x)-1:], finish: true}}, io.EOF},
+			{"stream closed without finish_write", []wmsg{first}, io.EOF},
+			{"transport error", []wmsg{first}, status.Error(codes.Unavailable, "transport is closing")},
+		} {
+			mem := backends.NewMem("cas", digest.KeyWithoutInstance)
+			srv := grpcservers.NewByteStreamServer(mem, 1<<16, pools()[0])
+			st := &fakeWriteStream{ctx: ctx, end: v.end, msgs: v.msgs}
+			if err := srv.Write(st); err == nil || mem.Len() != 0 || len(st.responses) != 0 {
+				t.Fatalf("%s: result %v, %d objects stored, %d responses; want rejection", v.what, err, mem.Len(), len(st.responses))
+			}
+		}
+		// the untampered sequence is fine
+		mem := backends.NewMem("cas", digest.KeyWithoutInstance)
+		srv := grpcservers.NewByteStreamServer(mem, 1<<16, pools()[0])
+		st := &fakeWriteStream{ctx: ctx, end: io.EOF, msgs: []wmsg{first, {off: int64(len(x) - 1), data: x[len(x)-1:], finish: true}}}
+		if err := srv.Write(st); err != nil || !mem.Has(emptyDigest) {
+			t.Fatalf("complete frame + skippable frame with correct offsets: %v", err)
+		}
+	})
+
 	// cb1fda2: compressed read must honour read_offset.
 	run("zstd_read_offset", func(t *testing.T) {
 		data := []byte("0123456789")
